@@ -40,11 +40,23 @@ def run(ctx):
         # templates
         tdirs = {}
         cases = []
+        from .. import gen_snap as GS
         for i, s in enumerate(ALL_SCHEMAS):
             d = os.path.join(root, "tmpl%d" % i)
             os.makedirs(d)
             tdirs[s] = d
             cases.append({"id": "t%d" % i, "ops": [{"op": "create", "schema": s, "dir": d}, {"op": "verify"}, {"op": "release_all"}]})
+            # the same library with content: tracks with performance data, nested crates, memberships
+            d = os.path.join(root, "tmplp%d" % i)
+            os.makedirs(d)
+            tdirs[(s, "populated")] = d
+            ops = [{"op": "create", "schema": s, "dir": d}]
+            for j in range(3):
+                ops.append({"op": "create_track", "as": "t%d" % j, "snap": GS.gen_snapshot(ctx.rng, s, rich=True, hostile_sentinels=False)})
+            ops += [{"op": "create_root_crate", "name": GS.hx("A"), "as": "cA"}, {"op": "create_sub_crate", "c": "cA", "name": GS.hx("B"), "as": "cB"},
+                    {"op": "add_track", "c": "cA", "t": "t0"}, {"op": "add_track", "c": "cB", "t": "t1"}, {"op": "add_track", "c": "cB", "t": "t2"},
+                    {"op": "verify"}, {"op": "release_all"}]
+            cases.append({"id": "tp%d" % i, "ops": ops})
         res = runner.run_cases(cases, cfg="plain")
         for r in res:
             if r.crash or any("exc" in e for e in r.events):
@@ -71,13 +83,13 @@ def run(ctx):
         # mutations, version by version
         n = 0
         with ProcessPoolExecutor(16) as pool:
-            for s in ALL_SCHEMAS:
+            for s, tkey in [(s, s) for s in ALL_SCHEMAS] + [(s, (s, "populated")) for s in ALL_SCHEMAS]:
                 v2 = is_v2(s)
                 files = ["Database2/m.db"] if v2 else ["m.db", "p.db"]
                 jobs = []
                 for dbrel in files:
-                    muts = SM.enumerate_mutations(os.path.join(tdirs[s], dbrel))
-                    ctx.bump_in("mutations_enumerated", s, len(muts))
+                    muts = SM.enumerate_mutations(os.path.join(tdirs[tkey], dbrel))
+                    ctx.bump_in("mutations_enumerated", s if tkey == s else s + " populated", len(muts))
                     by_kind = {}
                     for m in muts:
                         by_kind.setdefault(mut_name(m), []).append(m)
@@ -86,7 +98,7 @@ def run(ctx):
                         chosen = lst if frac >= 1 else ctx.rng.sample(lst, min(k, len(lst)))
                         for m in chosen:
                             cdir = os.path.join(root, "m%d" % n)
-                            jobs.append((tdirs[s], cdir, dbrel, m))
+                            jobs.append((tdirs[tkey], cdir, dbrel, m))
                             n += 1
                 outcomes = list(pool.map(_prepare, jobs, chunksize=8))
                 loads = []
@@ -96,14 +108,15 @@ def run(ctx):
                         ctx.bump_in("mutations_not_applicable", why.split(":")[0][:40])
                         continue
                     cid = os.path.basename(cdir)
-                    meta[cid] = (s, dbrel, m)
+                    meta[cid] = (s, dbrel, m, tkey != s)
                     loads.append({"id": cid, "ops": [{"op": "load", "dir": cdir}, {"op": "verify"}, {"op": "release_all"}]})
                 results = {}
                 runner.run_cases(loads, cfg="plain", on_result=lambda r: results.__setitem__(r.case["id"], r))
                 for cid, r in results.items():
-                    s_, dbrel, m = meta[cid]
+                    s_, dbrel, m, populated = meta[cid]
                     name = mut_name(m)
-                    wit = {"schema": s_, "file": dbrel, "mutation": list(m)}
+                    wit = {"schema": s_, "file": dbrel, "mutation": list(m), "populated": populated}
+                    ctx.bump_in("mutations_judged_on", "populated library" if populated else "empty library")
                     ev = r.events
                     if r.crash:
                         ctx.count()
@@ -113,7 +126,7 @@ def run(ctx):
                         ctx.bump_in("mutations_make_library_unloadable", name)
                         continue
                     ctx.count()
-                    ctx.nontriv("%s|%s|%s" % (s_, dbrel, m))
+                    ctx.nontriv("%s|%s|%s|%s" % (s_, dbrel, m, populated))
                     ctx.bump_in("mutations_judged", name)
                     ctx.bump_in("mutations_judged_by_schema", s_)
                     e = ev[1]
